@@ -16,13 +16,15 @@ use num_traits::{One, Pow, Signed, Zero};
 use std::cmp::Ordering;
 use std::num::FpCategory;
 
-fn same64(got: f64, want: &IeeeVal) -> bool {
+/// bit-for-bit, except that a zero result only has to carry the sign of the (non-zero) value it was rounded from:
+/// the correctly rounded image of a negative value that underflows is -0.0; an exact zero has no sign to keep
+fn same64(got: f64, want: &IeeeVal, x: &BigRational) -> bool {
     let w = want.to_f64();
-    got.to_bits() == w.to_bits() || (got == 0.0 && w == 0.0)
+    got.to_bits() == w.to_bits() || (got == 0.0 && w == 0.0 && (x.is_zero() || got.is_sign_negative() == x.is_negative()))
 }
-fn same32(got: f32, want: &IeeeVal) -> bool {
+fn same32(got: f32, want: &IeeeVal, x: &BigRational) -> bool {
     let w = want.to_f32();
-    got.to_bits() == w.to_bits() || (got == 0.0 && w == 0.0)
+    got.to_bits() == w.to_bits() || (got == 0.0 && w == 0.0 && (x.is_zero() || got.is_sign_negative() == x.is_negative()))
 }
 fn ord_of_sign(s: Sign) -> Ordering {
     match s {
@@ -38,7 +40,7 @@ fn judge_sign64(x: &BigRational, got: &Approximation<f64, Sign>, what: &str) -> 
         Approximation::Exact(v) => (*v, Ordering::Equal),
         Approximation::Inexact(v, s) => (*v, ord_of_sign(*s)),
     };
-    ensure!(same64(v, &want), "misrounded", "{}: got {:e} (bits {:#x}) want {:e} (bits {:#x})", what, v, v.to_bits(), want.to_f64(), want.to_f64().to_bits());
+    ensure!(same64(v, &want, x), "misrounded", "{}: got {:e} (bits {:#x}) want {:e} (bits {:#x})", what, v, v.to_bits(), want.to_f64(), want.to_f64().to_bits());
     ensure!((flag == Ordering::Equal) == (ord == Ordering::Equal), "exact_flag", "{}: reported {} but the conversion is {}", what, if flag == Ordering::Equal { "Exact" } else { "Inexact" }, if ord == Ordering::Equal { "exact" } else { "inexact" });
     ensure!(flag == ord, "error_sign", "{}: reported error sign {:?} but result - value is {:?}", what, flag, ord);
     Ok(())
@@ -49,7 +51,7 @@ fn judge_sign32(x: &BigRational, got: &Approximation<f32, Sign>, what: &str) -> 
         Approximation::Exact(v) => (*v, Ordering::Equal),
         Approximation::Inexact(v, s) => (*v, ord_of_sign(*s)),
     };
-    ensure!(same32(v, &want), "misrounded", "{}: got {:e} (bits {:#x}) want {:e} (bits {:#x})", what, v, v.to_bits(), want.to_f32(), want.to_f32().to_bits());
+    ensure!(same32(v, &want, x), "misrounded", "{}: got {:e} (bits {:#x}) want {:e} (bits {:#x})", what, v, v.to_bits(), want.to_f32(), want.to_f32().to_bits());
     ensure!((flag == Ordering::Equal) == (ord == Ordering::Equal), "exact_flag", "{}: reported {} but the conversion is {}", what, if flag == Ordering::Equal { "Exact" } else { "Inexact" }, if ord == Ordering::Equal { "exact" } else { "inexact" });
     ensure!(flag == ord, "error_sign", "{}: reported error sign {:?} but result - value is {:?}", what, flag, ord);
     Ok(())
@@ -485,7 +487,7 @@ fn case(m: &mut Mon, r: &mut Rng, idx: u64) {
                         Ok(v) => v,
                         Err(p) => return failx("unexpected_panic", format!("{}: {}", what, p)),
                     };
-                    let ok = if is32 { same32(v as f32, want) } else { same64(v, want) };
+                    let ok = if is32 { same32(v as f32, want, &x) } else { same64(v, want, &x) };
                     // overflow under a directed mode: IEEE gives the largest finite value when rounding
                     // toward zero; an infinity with a truthful error sign is accepted as well
                     let (hv, _) = round_to(&x, if is32 { F32 } else { F64 }, Mode::HalfEven);
@@ -621,11 +623,12 @@ fn case(m: &mut Mon, r: &mut Rng, idx: u64) {
             // floats <-> integers
             let sl = gen::small_mag(r);
             let neg = r.bool();
-            let e = r.range(-6, 12);
-            let base10 = r.bool();
+            let e = if r.bool() { r.range(-6, 12) } else { r.range(-40, 40) };
+            let bsel = r.below(10);
+            let bases = [2u32, 10, 2, 10, 16, 4, 8, 32, 3, 36];
             let s = int(neg, &sl);
-            let d = || format!("fbig_int x={}*{}^{}", s, if base10 { 10 } else { 2 }, e);
-            m.check("fbig_int", if base10 { "b10" } else { "b2" }, Some(gen::hash_limbs((e as u64) << 8 ^ base10 as u64, &sl)), &d, || {
+            let d = || format!("fbig_int x={}*{}^{}", s, bases[bsel as usize], e);
+            m.check("fbig_int", &format!("b{}", bases[bsel as usize]), Some(gen::hash_limbs((e as u64) << 8 ^ bsel << 40, &sl)), &d, || {
                 macro_rules! go {
                     ($B:literal) => {{
                         let x = q_of_parts(&s, e, $B);
@@ -654,6 +657,17 @@ fn case(m: &mut Mon, r: &mut Rng, idx: u64) {
                         prim!(i32);
                         prim!(i64);
                         prim!(i128);
+                        // floats into rationals: always exact, RBig in lowest terms; through FBig and through Repr
+                        let (rq, rx) = (RBig::try_from(f.clone()), Relaxed::try_from(f.clone()));
+                        let (rq2, rx2) = (RBig::try_from(f.repr().clone()), Relaxed::try_from(f.repr().clone()));
+                        match (rq, rx, rq2, rx2) {
+                            (Ok(a), Ok(b), Ok(a2), Ok(b2)) => {
+                                ensure!(q_of_rbig(&a) == x && q_of_relaxed(&b) == x && q_of_rbig(&a2) == x && q_of_relaxed(&b2) == x, "lossy_success", "RBig/Relaxed::try_from(FBig/Repr {}*{}^{}) = {} / {} / {} / {}", s, $B, e, a, b, a2, b2);
+                                let g = num_integer::Integer::gcd(&int_of(a.numerator()), &BigInt::from(nat_of(a.denominator())));
+                                ensure!(g.is_one() || x.is_zero(), "canonical", "RBig::try_from(FBig {}*{}^{}) = {} is not reduced", s, $B, e, a);
+                            }
+                            (a, b, _, _) => return fail("refused_representable", format!("RBig/Relaxed::try_from(finite FBig {}*{}^{}) refused: {:?} / {:?}", s, $B, e, a.map(|v| v.to_string()), b.map(|v| v.to_string()))),
+                        }
                         // integers into floats are exact
                         let fi = FBig::<mode::HalfEven, $B>::from(ibig_of_int(&s));
                         ensure!(q_of_repr(fi.repr()) == BigRational::from_integer(s.clone()), "lossy_success", "FBig::from(IBig {}) = {}", s, fi);
@@ -664,10 +678,15 @@ fn case(m: &mut Mon, r: &mut Rng, idx: u64) {
                         Ok(())
                     }};
                 }
-                if base10 {
-                    go!(10)
-                } else {
-                    go!(2)
+                match bases[bsel as usize] {
+                    2 => go!(2),
+                    10 => go!(10),
+                    16 => go!(16),
+                    4 => go!(4),
+                    8 => go!(8),
+                    32 => go!(32),
+                    3 => go!(3),
+                    _ => go!(36),
                 }
             });
         }
